@@ -62,6 +62,7 @@ func init() {
 		k.PNegCap = 20
 		k.PNegBal = 18
 		k.POverUnity = 6
+		k.PWeirdAccount = 3
 		if tier == "thorough" {
 			k.MaxDepth = 4
 		}
@@ -165,6 +166,17 @@ func checkC02(c any) *ev.Verdict {
 	outcomeLabel(r, v)
 	if !r.OK() {
 		return v
+	}
+	// clauses that need no model first: sign, empty name, kept marker
+	for i, p := range r.Postings {
+		if p.Amt.Sign() <= 0 {
+			return v.Failf("nonpositive", "posting %d (%s) has a non-positive amount; result: %s", i, p, r.Summary())
+		}
+		for _, name := range []string{p.Src, p.Dst} {
+			if name == "" || name == "<kept>" {
+				return v.Failf("badname", "posting %d (%s) names %q", i, p, name)
+			}
+		}
 	}
 	in := hx.ModelInputs(ec)
 	sa := model.Analyse(ec.Script, in)
